@@ -57,7 +57,9 @@ CONSTANTS Confs,       \* set of configuration records, see BlobPutMC
           DefChunk,    \* reg.blobChunkSize, used when host.BlobChunk <= 0
           ChunkLimit,  \* reg.blobChunkLimit
           RetryLimit,  \* retryLimit of blobPutUploadChunked (10 in the code)
-          HttpRetries  \* reghttp retryLimit (5 in the code)
+          HttpRetries, \* reghttp retryLimit (5 in the code)
+          IgnoreInvalidDigest \* as-found switch (before 69e13de): a declared digest that does not
+                       \* validate is taken for "no digest"; FALSE = the repaired code
 
 VARIABLES
   cf,          \* configuration (constant during a behaviour)
@@ -100,7 +102,8 @@ H(c)   == c                   \* ideal hash
 \* declared descriptor: digest of the stream / of other content / of the prefix that has the
 \* declared size / none; size right, one more, one less (configurations keep it > 0), none.
 \* "baddig" is a digest string that does not validate (malformed, or an algorithm that is not
-\* available): d.Digest.Validate() != nil, which the code treats exactly like no digest.
+\* available): d.Digest.Validate() != nil.  BlobPut rejects it up front (Start); with the as-found
+\* switch IgnoreInvalidDigest every later test of the digest treats it exactly like no digest.
 DDig  == CASE cf.decl \in {"right", "sizeplus", "sizeminus", "digonly"} -> H(Src)
            [] cf.decl = "wrongdig" -> H(Other)
            [] cf.decl = "prefix" -> H(SubSeq(Src, 1, cf.len - 1))
@@ -159,10 +162,15 @@ Is2xx(st) == st \in {201, 202, 204}
 CloseIf2xx == IF Is2xx(rsp.st) THEN CloseReset ELSE NoClose
 
 \* ------------------------------------------------------------------ BlobPut
+\* (since 69e13de) both BlobPut implementations first reject a digest that is set but does not
+\* validate: nothing is sent, nothing is read
 Start ==
   /\ pc = "start"
-  /\ pc' = IF cf.dest = "ocidir" THEN "o_copy" ELSE IF ValidDesc THEN "mount" ELSE "post"
-  /\ UNCHANGED <<cf, cvars, hvars, lvars, svars, tmpFile>>
+  /\ IF cf.decl = "baddig" /\ ~IgnoreInvalidDigest
+     THEN Fail /\ UNCHANGED <<putURL, rdPos, readOnce, retD>>
+     ELSE /\ pc' = IF cf.dest = "ocidir" THEN "o_copy" ELSE IF ValidDesc THEN "mount" ELSE "post"
+          /\ UNCHANGED cvars
+  /\ UNCHANGED <<cf, hvars, lvars, svars, tmpFile>>
 
 \* blobMount with an empty source ref: POST ?mount=<digest>, errors ignored
 Mount ==
@@ -552,8 +560,9 @@ O1Strict == (Done /\ result = "ok") =>
 \* O2: a declared digest / size the stream does not match => error, nothing committed under it
 O2Strict == Mismatch => /\ (DigValid => Held(DDig) = Pre)
                         /\ (Done => result = "err")
-\* a declared digest that does not validate is taken for "no digest" (finding C05-2)
-IgnoredDigest == cf.decl = "baddig"
+\* as found, a declared digest that does not validate was taken for "no digest" (finding C05-2,
+\* fixed by 69e13de; reachable only with the switch, see C05_mc_known_baddig.cfg)
+IgnoredDigest == IgnoreInvalidDigest /\ cf.decl = "baddig"
 O1 == MountShortcut \/ O1Strict
 O2 == MountShortcut \/ IgnoredDigest \/ O2Strict
 \* O3: conforming destination, no transient fault, well formed input => success.  Not demanded
